@@ -818,11 +818,15 @@ def setup(res=None):
     env["aux"] = common.build_harness("c06_aux", extra_src=["imbh.c"])
     env["work"] = os.path.join(common.BUILD, "c06")
     os.makedirs(env["work"], exist_ok=True)
+    env["init_failure"] = None
     try:
-        p = common.run([env["k1"], "--list-variants"], env=common.lib_env(), timeout=300)
+        p = common.run([env["k1"], "--list-variants"], env=common.lib_env(), timeout=120)
         env["variant_names"] = [l.split()[0][8:] for l in p.stdout.splitlines() if l.startswith("variant=")]
-    except Exception:
+        if not env["variant_names"]:
+            env["init_failure"] = "no manager can be created (rc=%d): %s" % (p.returncode, (p.stderr or "")[-400:].replace("\n", " | "))
+    except Exception as ex:
         env["variant_names"] = []
+        env["init_failure"] = "creating the managers does not finish within 120 s (init_mb_mgr_* hangs in the power-up self test): %s" % type(ex).__name__
     mt = MTools()
     mt.drv = k1.build_model_driver()
     mt.work = env["work"]
@@ -883,11 +887,17 @@ def main(tier, seed):
     if tier != "quick":
         passes += [Pass(env, seed, False), Pass(env, seed + 1, True, batch=16), Pass(env, seed + 2, False, batch=7)]
     dis, stats = [], collections.Counter()
+    if env["init_failure"]:
+        # nothing can be run: every init_mb_mgr_* goes through the power-up self test, i.e. through the tables under test
+        dis.append(dict(cell=[0, 0, 0, 0, 0], var="-", ep=-1, kind="no-usable-manager", detail=env["init_failure"],
+                        replay_cmd="LD_LIBRARY_PATH=<build>/lib/lib <build>/bin/k1_algo --list-variants"))
+        passes = []
     for p in passes:
         p.run()
         dis += p.dis
         stats.update(p.stats)
-    suite_sweep(env, dis, stats)
+    if not env["init_failure"]:
+        suite_sweep(env, dis, stats)
     json.dump(dis, open(os.path.join(env["work"], "disagreements.json"), "w"))
     # ---- triage: acknowledged findings are set aside by cell
     unexplained, hits = [], collections.Counter()
@@ -925,7 +935,7 @@ def main(tier, seed):
         "passes": [dict(seed=p.seed, inplace=p.inplace, batch=p.batch) for p in passes],
         "counters": dict(stats), "disagreement_kinds": dict(kinds),
         "known_finding_hits": {re.search(r"key=(\S+)", k).group(1): v for k, v in hits.items()},
-        "samples": [item_line(passes[0].item(c))[:260] for c in ((1, 24, 2, 4, 2), (14, 32, 1, 22, 1), (5, 16, 1, 9, 1))],
+        "samples": [item_line(Pass(env, seed, True).item(c))[:260] for c in ((1, 24, 2, 4, 2), (14, 32, 1, 22, 1), (5, 16, 1, 9, 1))],
         "hash_histogram": dict(collections.Counter(c[3] for c in domain if acc.get(c, 0) & 2)),
         "cipher_histogram": dict(collections.Counter(c[0] for c in domain if acc.get(c, 0) & 2)),
         "traces_validated_against_impl": stats["accepted_checked"] + stats["rejected_checked"],
